@@ -521,6 +521,53 @@ def judge_lits(ctx, cfg, inputs, aux=None):
                     ctx.disagreements.append({'input': hx(inputs[i]), 'impl': io[i], 'model': m, 'cfg': cfg})
     return v
 
+# ---- several numbers in one document: nothing of an earlier literal (or string) may leak into a later one (scratch buffer, single_precision flag)
+def judge_sequences(ctx, cfg, lits):
+    """documents [x1, x2, ...] and streams `x1 x2 ...` of literals (long and short mixed, strings with escapes in between) parsed into a Value from a
+    slice and from a 1-byte reader: every element must be the correctly rounded value of ITS OWN literal (exact oracle), whatever was parsed before it"""
+    feats = engine.CONFIGS[cfg][0]
+    if 'float_roundtrip' not in feats or 'arbitrary_precision' in feats:
+        return []
+    rng = ctx.rng
+    L = ctx.letters(cfg)
+    longs = [l for l in lits if 20 <= len(l) <= 60 and b'.' in l][:4000] or [b'0.1234567890123456789012']
+    fixed = [b'0.1234567890123456789012', b'0.3333333333333333333333333', b'2.718281828459045235360287471352', b'123456789012345678901234567890',
+             b'1.00000000000000000000000001e5', b'9007199254740993.0000000000001', b'1e23', b'0.1', b'18446744073709551616', b'0.000001234567890123456789012']
+    docs = []
+    n = 3000 if ctx.tier == 'quick' else 40000
+    for i in range(n):
+        k = rng.choice([2, 2, 3, 4])
+        elems = [rng.choice(fixed) if rng.random() < 0.4 else rng.choice(longs) for _ in range(k)]
+        docs.append(elems)
+    for a in fixed:
+        for b in fixed:
+            docs.append([a, b])
+    lines, meta = [], []
+    for elems in docs:
+        exp = [expect_value(e) for e in elems]
+        if any(x is None or not x.startswith('ok ') for x in exp):
+            continue
+        want = 'ok a(' + ','.join(x[3:] for x in exp) + ')'
+        dirt = rng.choice([None, None, b'"a\\nb\\u0041"', b'"plain"'])
+        body = b', '.join(elems)
+        if dirt is not None:
+            body = dirt + b',' + body
+            want = 'ok a(s%s,' % hx(b'a\nbA' if b'\\' in dirt else b'plain') + want[5:]
+        doc = b'[' + body + b']'
+        for src in ('b', 'r1'):
+            lines.append('pv %s %s %s' % (L, src, hx(doc)))
+            meta.append((doc, want))
+    outs = impl_s(ctx, cfg, lines)
+    v = []
+    for (doc, want), a, ln in zip(meta, outs, lines):
+        if a != want:
+            v.append({'what': 'number-depends-on-what-was-parsed-before', 'cfg': cfg, 'input': hx(doc), 'literal': doc[:200].decode('latin-1'), 'line': ln,
+                      'expected': 'each element correctly rounded on its own: ' + want[:300], 'actual': a[:300], 'shrinkable': False})
+        elif not ctx.quiet:
+            ctx.distinct_nontrivial += 1
+    ctx.count('sequences', len(lines))
+    return v
+
 # ---- serialise-then-deserialise
 def f64_samples(ctx):
     rng = ctx.rng
@@ -921,6 +968,7 @@ def run_c07(ctx, extended=False):
                     ctx.distinct_nontrivial += len(texts)
                     ctx.violations += judge_lits(ctx, cfg, texts[::3], {'target': fmt.name})
             ctx.violations += sweep64(ctx, cfg)
+            ctx.violations += judge_sequences(ctx, cfg, keep64)
         else:
             vs, _ = judge_roundtrip(ctx, cfg, list(f32_samples(ctx)), F32)
             ctx.violations += vs
